@@ -84,6 +84,7 @@ def build(ctx):
     rp_sites = []
     if os.environ.get('C16_ONLY') == 'containment':       # development aid: one part only (never used by the registered commands)
         part_containment(ctx, eng)
+        part_diagnostics_consumed(ctx, eng)
         return
 
     # ---------------- A. every function of src/shape.rs
@@ -197,6 +198,7 @@ def build(ctx):
     wide_scan(ctx, eng)
     part_annotation(ctx, eng)
     part_containment(ctx, eng)
+    part_diagnostics_consumed(ctx, eng)
     ctx.cover('cover/usable-page-satisfiable', [z3.BoolVal(True)])
 
 
@@ -331,18 +333,9 @@ def make_annotation_replay(ctx):
 RUSTC_PARSE = r'^(rustc_parse::.*|new_parser_from_\w+(::<.*>)?|unwrap_or_emit_fatal(::<.*>)?|source_str_to_stream|source_file_to_stream|parse_in(::<.*>)?|stream_to_parser)$'
 
 
-def part_containment(ctx, eng):
-    """src/parse/parser.rs: Parser::parse_crate and Parser::parse_file_as_module are executed with every call into rustc_parse
-    (new_parser_from_file, new_parser_from_source_str, unwrap_or_emit_fatal, Parser::parse_mod, Parser::parse_crate_mod, ...) as environment
-    that either returns an arbitrary value or unwinds (a panic, or the FatalError a lexer error raises).  std::panic::catch_unwind runs the
-    real closure and turns an unwind inside it into Err(payload).  Obligation: no path leaves the entry point by unwinding, and a path on which
-    the parser unwound returns Err(ParserError)."""
-    old = (eng.lenient, eng.usize_bound, eng.inline_only, list(eng.stubs), eng.unsupported_as_outcome)
-    eng.lenient = True
-    eng.stubs = []
-    eng.unsupported_as_outcome = False
-    eng.inline_only = [re.compile(r'src/parse/parser\.rs')]
-
+def containment_env(eng):
+    """Environment of the containment kernels (also used by C05): std::panic::catch_unwind runs the real closure and turns an unwind inside it
+    into Err(payload); returns the stub body `rustc_call` = returns an arbitrary value | unwinds."""
     def unwrap_aus(e, s_, v):
         while True:
             if isinstance(v, Tup) and v.name and 'AssertUnwindSafe' in v.name and len(v.items) == 1:
@@ -373,6 +366,22 @@ def part_containment(ctx, eng):
              lambda e, s_, a, c: (lambda v: unwrap_aus(e, s_, e.read_ref(s_, v) if isinstance(v, Ref) else v))(a[0]), 'AssertUnwindSafe deref')
     eng.stub(r'Diag::<.*>::emit$|Diag::emit$', lambda e, s_, a, c: UNIT, 'Diag::emit: prints')
     eng.stub(r'Cell::<bool>::replace$', lambda e, s_, a, c: (s_.trace.append(('cell_replace', a[1])), e.fresh_bool('cell.old'))[1], 'Cell<bool>::replace: the stored value is observed')
+    return rustc_call
+
+
+def part_containment(ctx, eng):
+    """src/parse/parser.rs: Parser::parse_crate and Parser::parse_file_as_module are executed with every call into rustc_parse
+    (new_parser_from_file, new_parser_from_source_str, unwrap_or_emit_fatal, Parser::parse_mod, Parser::parse_crate_mod, ...) as environment
+    that either returns an arbitrary value or unwinds (a panic, or the FatalError a lexer error raises).  std::panic::catch_unwind runs the
+    real closure and turns an unwind inside it into Err(payload).  Obligation: no path leaves the entry point by unwinding, and a path on which
+    the parser unwound returns Err(ParserError)."""
+    old = (eng.lenient, eng.usize_bound, eng.inline_only, list(eng.stubs), eng.unsupported_as_outcome)
+    eng.lenient = True
+    eng.stubs = []
+    eng.unsupported_as_outcome = False
+    eng.inline_only = [re.compile(r'src/parse/parser\.rs')]
+
+    rustc_call = containment_env(eng)
     base = list(eng.stubs)
     # (entry, file, what unwinds, files inlined, replay entry)
     table = [('parse_crate', 'src/parse/parser.rs', RUSTC_PARSE, r'src/parse/parser\.rs', 'every call into rustc_parse'),
@@ -483,6 +492,114 @@ def make_containment_replay(ctx, entry):
     return replay
 
 
+# ----------------------------------------------------------------------------- F. a rustc diagnostic is never dropped without being emitted or cancelled
+DISCARDS = r'^(std::result::|core::result::)?Result::<.*, (rustc_errors::)?Diag<[^<>]*>>::(ok|unwrap_or|unwrap_or_default|unwrap_or_else|map_or|map_or_else|is_ok_and|is_err_and|and|or)(::<.*>)?$'
+
+
+def part_diagnostics_consumed(ctx, eng):
+    """rustc_errors::Diag panics in its destructor ("error was constructed but not emitted") unless it was emitted or cancelled; outside
+    rewrite_macro's catch_unwind that panic ends the process.  Every call in the crate that consumes a Result<_, Diag> and throws the error
+    away (Result::ok, unwrap_or*, map_or*, ...) is collected from the MIR; its function is executed under-constrained with the parser's answer an
+    arbitrary Ok | Err, and the solver decides whether the Err case reaches the discarding call."""
+    from mirsym.mirparse import block_parsed
+    sites = {}
+    for r in eng.records:
+        mir = eng.mirs[r['mir']]
+        s0, e0 = mir.index[r['name']]
+        if not any('Diag<' in ln for ln in mir.lines[s0:e0]):
+            continue
+        if not mir.headers[r['name']].startswith('fn '):
+            continue
+        fn = eng.get_fn(r['name'])
+        for bb, blk in fn.blocks.items():
+            if blk.get('cleanup'):
+                continue
+            try:
+                stmts, term = block_parsed(blk)
+            except Exception:
+                continue
+            if term[0] == 'call' and term[2][0] == 'path' and re.search(DISCARDS, term[2][1]):
+                sites.setdefault(r['name'], []).append((bb, term[2][1], (blk.get('spans') or [None])[-1]))
+    # a function nothing calls (dead code kept for later use, e.g. parse_asm) cannot drop anything at run time: listed, not decided
+    dead = []
+    for name in sorted(sites):
+        last = name.rsplit('::', 1)[-1]
+        pat = re.compile(r'(^|[ :(])' + re.escape(last) + r'(::<[^(]*>)?\(')
+        called = False
+        for mir in eng.mirs:
+            for ln in mir.lines:
+                if '-> [return' in ln and last in ln and pat.search(ln.split('=', 1)[-1]):
+                    called = True
+                    break
+            if called:
+                break
+        if not called:
+            dead.append(name)
+    for name in dead:
+        del sites[name]
+    if dead:
+        ctx.notes.append('diagnostics: not decided because nothing in the crate calls them: %s' % ', '.join(short_name(x) for x in dead))
+    old = (eng.lenient, eng.inline_only, list(eng.stubs), eng.unsupported_as_outcome)
+    eng.lenient = True
+    eng.unsupported_as_outcome = False
+    rp = make_diag_replay(ctx)
+    n = 0
+    try:
+        for name, lst in sorted(sites.items()):
+            eng.stubs = []
+            eng.inline_only = [re.compile(re.escape(name) + r'($|::\{closure)')]
+
+            def discard(e, s_, a, c):
+                v = a[0]
+                while isinstance(v, Ref):
+                    v = e.read_ref(s_, v)
+                if not isinstance(v, Enum):
+                    raise Unsupported('discarding call on %r' % (v,))
+                s_.trace.append(('discard', c.func, v.discr, c.bb))
+                return NotImplemented          # the ordinary summary of the method applies
+            eng.stub(DISCARDS, discard, 'Result<_, Diag>::{ok, unwrap_or, ...}: the discriminant of the receiver is observed')
+            fn = eng.get_fn(name)
+            st = State()
+            args = [eng.fresh_of_type(st, ty, 'arg.%s' % pn) for pn, ty in fn.params]
+            outs = ctx.check_outcomes(eng.run(name, args, st), name, allow_panic=True)
+            seen = 0
+            for pi, o in enumerate(outs):
+                for t in o.state.trace:
+                    if t[0] != 'discard':
+                        continue
+                    seen += 1
+                    n += 1
+                    ctx.prop('diagnostics/%s/p%d/%s-never-receives-an-error-that-was-not-emitted-or-cancelled' % (short_name(name), pi, short_callee(t[1])), o.state.pc, t[2] == 1, [],
+                             rp, twin=False, meta={'site': '%s bb%s' % (name, t[3])})
+            if not seen:
+                raise Inconclusive('diagnostics: the discarding call in %s was not reached on any explored path' % name)
+    finally:
+        eng.lenient, eng.inline_only, eng.stubs, eng.unsupported_as_outcome = old
+    if not sites:
+        ctx.prop('diagnostics/no-call-discards-the-error-of-a-Result<_, Diag>', [], z3.BoolVal(False), [], None, twin=False)
+    ctx.notes.append('diagnostics: %d functions with a call that discards the error of a Result<_, Diag> (%s), %d path obligations' % (len(sites), ', '.join(short_name(x) for x in sorted(sites)), n))
+
+
+def make_diag_replay(ctx):
+    def replay(model, r):
+        bins = ensure_bins()
+        rf = os.path.join(bins, 'rustfmt')
+        d = os.path.join(BUILD, 'scratch', 'c16f-%d' % os.getpid())
+        shutil.rmtree(d, ignore_errors=True)
+        os.makedirs(d)
+        found = []
+        for src in ('fn f() { try!().foo(); }\n', 'fn f() { try!(,).foo(); }\n', 'fn f() { let x = try!(); }\n', 'fn f() { g(try!(a b)).h(); }\n', 'fn f() { r#try!().foo(); }\n'):
+            for cfg in ('use_try_shorthand=true', 'use_try_shorthand=true,style_edition=2024'):
+                p = os.path.join(d, 'x.rs')
+                open(p, 'w').write(src)
+                pr = subprocess.run([rf, '--emit', 'stdout', '--config', cfg, p], capture_output=True, text=True, env=run_env(), timeout=60, cwd=d)
+                if pr.returncode not in (0, 1) or 'constructed but not emitted' in pr.stderr:
+                    found.append('%r [%s]: exit %d%s' % (src.strip(), cfg, pr.returncode, ', "error was constructed but not emitted"' if 'not emitted' in pr.stderr else ''))
+        shutil.rmtree(d, ignore_errors=True)
+        return {'reproduced': bool(found), 'detail': found[:6]}
+    return replay
+
+
 def src_text(eng, span):
     """source text of a MIR span (site identity that survives line-number shifts)"""
     if not span:
@@ -579,7 +696,7 @@ def wide_scan(ctx, eng, record=False):
     eng.lenient = True
     eng.usize_bound = LIM
     eng.stubs = []
-    eng.no_inline = [re.compile(r'to_string')]
+    eng.no_inline = [re.compile(r'to_string'), re.compile(r'ConfigSetter|set_heuristics|set_width_heuristics|Config::set(_cli)?$')]      # option setters: uninterpreted, the options are havoced
     eng.inline_only = [re.compile(r'src/shape\.rs'), re.compile(r'src/config/config_type\.rs'), re.compile(r'^Config::'), re.compile(r'^(std|core)::cmp::')]
     old_lb = eng.loop_bound
     eng.loop_bound = 3
@@ -674,6 +791,34 @@ fn every_expression_kind(input: usize) -> usize {
 '''
 
 
+STRESS4 = r'''
+mod a {
+    mod b {
+        mod c {
+            mod d {
+                macro_rules! m {
+                    () => {
+                        1
+                    };
+                    ($a:expr, $b:expr) => {{
+                        let x = $a + $b;
+                        x
+                    }};
+                }
+                macro_rules! n { ($($t:tt)*) => { $($t)* }; }
+                impl T for S {
+                    fn f(&self) -> usize {
+                        let Some(x) = "a very long string literal that does not fit anywhere at all" else { return 0 };
+                        match x { _ if true => { call!(x, y) } _ => 0 }
+                    }
+                }
+            }
+        }
+    }
+}
+'''
+
+
 def make_corpus_replay(ctx, span):
     def replay(model, r):
         bins = ensure_bins()
@@ -685,7 +830,7 @@ def make_corpus_replay(ctx, span):
         shutil.rmtree(d, ignore_errors=True)
         os.makedirs(d)
         files = []
-        for i, txt in enumerate((STRESS, STRESS2, STRESS3)):
+        for i, txt in enumerate((STRESS, STRESS2, STRESS3, STRESS4)):
             p = os.path.join(d, 'stress%d.rs' % i)
             open(p, 'w').write(txt)
             files.append(p)
@@ -697,7 +842,9 @@ def make_corpus_replay(ctx, span):
         cfgs = ['max_width=%d,wrap_comments=true,format_strings=true,normalize_comments=true,format_code_in_doc_comments=true%s' % (mw, extra)
                 for mw in (20, 26, 34, 40, 60) for extra in ('', ',hard_tabs=true', ',style_edition=2024')]
         env = run_env()
-        jobs = [(f, c) for f in files[:3] for c in cfgs] + [(f, c) for f in files[3:] for c in cfgs[:4]]
+        # the generated stress files also under other indentation steps (usable page: max_width >= 5 * tab_spaces)
+        wide = ['tab_spaces=%d,max_width=%d%s' % (ts, mw, extra) for ts in (2, 6, 7, 8) for mw in (20, 30, 35, 40, 45, 60) if mw >= 5 * ts for extra in ('', ',style_edition=2024')]
+        jobs = [(f, c) for f in files[:4] for c in cfgs + wide] + [(f, c) for f in files[4:] for c in cfgs[:4]]
 
         def one(job):
             f, c = job
